@@ -96,19 +96,19 @@ func (f zvFields) sigList(k string) []SignatureScheme {
 	return out
 }
 
-func zvHex(b []byte) string {
+func zv30Hex(b []byte) string {
 	if len(b) == 0 {
 		return "-"
 	}
 	return hex.EncodeToString(b)
 }
-func zvHexNil(b []byte) string {
+func zv30HexNil(b []byte) string {
 	if b == nil {
 		return "~"
 	}
-	return zvHex(b)
+	return zv30Hex(b)
 }
-func zvBool(b bool) string {
+func zv30Bool(b bool) string {
 	if b {
 		return "1"
 	}
@@ -120,7 +120,7 @@ func zvByteList(l [][]byte) string {
 	}
 	s := make([]string, len(l))
 	for i, e := range l {
-		s[i] = zvHex(e)
+		s[i] = zv30Hex(e)
 	}
 	return strings.Join(s, ",")
 }
@@ -153,7 +153,7 @@ func zvStrList(l []string) string {
 	}
 	s := make([]string, len(l))
 	for i, e := range l {
-		s[i] = zvHex([]byte(e))
+		s[i] = zv30Hex([]byte(e))
 	}
 	return strings.Join(s, ",")
 }
@@ -174,7 +174,7 @@ func (f zvFields) bytesNil(k string) []byte {
 	return zvUnhex(v)
 }
 func zvDumpCert(c Certificate) string {
-	return fmt.Sprintf("certificates=%s;ocspStaple=%s;sctList=%s", zvByteList(c.Certificate), zvHexNil(c.OCSPStaple), zvByteListNil(c.SignedCertificateTimestamps))
+	return fmt.Sprintf("certificates=%s;ocspStaple=%s;sctList=%s", zvByteList(c.Certificate), zv30HexNil(c.OCSPStaple), zvByteListNil(c.SignedCertificateTimestamps))
 }
 
 // zvBuild constructs the message value of the given kind from canonical fields.
@@ -275,51 +275,51 @@ func zvBuild(kind string, f zvFields) zvMsg {
 func zvDump(v zvMsg) string {
 	switch m := v.(type) {
 	case *finishedMsg:
-		return "verifyData=" + zvHex(m.verifyData)
+		return "verifyData=" + zv30Hex(m.verifyData)
 	case *certificateMsg:
 		return "certificates=" + zvByteList(m.certificates)
 	case *serverHelloDoneMsg, *helloRequestMsg, *endOfEarlyDataMsg:
 		return "-"
 	case *clientKeyExchangeMsg:
-		return "ciphertext=" + zvHex(m.ciphertext)
+		return "ciphertext=" + zv30Hex(m.ciphertext)
 	case *serverKeyExchangeMsg:
-		return "key=" + zvHex(m.key)
+		return "key=" + zv30Hex(m.key)
 	case *certificateStatusMsg:
-		return "response=" + zvHex(m.response)
+		return "response=" + zv30Hex(m.response)
 	case *newSessionTicketMsg:
-		return fmt.Sprintf("ticket=%s;lifetimeHint=%d", zvHex(m.ticket), m.lifetimeHint)
+		return fmt.Sprintf("ticket=%s;lifetimeHint=%d", zv30Hex(m.ticket), m.lifetimeHint)
 	case *certificateRequestMsg:
 		return fmt.Sprintf("hasSignatureAlgorithm=%s;certificateTypes=%s;supportedSignatureAlgorithms=%s;certificateAuthorities=%s",
-			zvBool(m.hasSignatureAlgorithm), zvHex(m.certificateTypes), zvSigList(m.supportedSignatureAlgorithms), zvByteList(m.certificateAuthorities))
+			zv30Bool(m.hasSignatureAlgorithm), zv30Hex(m.certificateTypes), zvSigList(m.supportedSignatureAlgorithms), zvByteList(m.certificateAuthorities))
 	case *certificateVerifyMsg:
-		return fmt.Sprintf("hasSignatureAlgorithm=%s;signatureAlgorithm=%d;signature=%s", zvBool(m.hasSignatureAlgorithm), uint16(m.signatureAlgorithm), zvHex(m.signature))
+		return fmt.Sprintf("hasSignatureAlgorithm=%s;signatureAlgorithm=%d;signature=%s", zv30Bool(m.hasSignatureAlgorithm), uint16(m.signatureAlgorithm), zv30Hex(m.signature))
 	case *sessionState:
-		return fmt.Sprintf("vers=%d;cipherSuite=%d;createdAt=%d;masterSecret=%s;certificates=%s", m.vers, m.cipherSuite, m.createdAt, zvHex(m.masterSecret), zvByteList(m.certificates))
+		return fmt.Sprintf("vers=%d;cipherSuite=%d;createdAt=%d;masterSecret=%s;certificates=%s", m.vers, m.cipherSuite, m.createdAt, zv30Hex(m.masterSecret), zvByteList(m.certificates))
 	case *sessionStateTLS13:
-		return fmt.Sprintf("cipherSuite=%d;createdAt=%d;resumptionSecret=%s;%s", m.cipherSuite, m.createdAt, zvHex(m.resumptionSecret), zvDumpCert(m.certificate))
+		return fmt.Sprintf("cipherSuite=%d;createdAt=%d;resumptionSecret=%s;%s", m.cipherSuite, m.createdAt, zv30Hex(m.resumptionSecret), zvDumpCert(m.certificate))
 	case *encryptedExtensionsMsg:
-		return "alpnProtocol=" + zvHex([]byte(m.alpnProtocol))
+		return "alpnProtocol=" + zv30Hex([]byte(m.alpnProtocol))
 	case *keyUpdateMsg:
-		return "updateRequested=" + zvBool(m.updateRequested)
+		return "updateRequested=" + zv30Bool(m.updateRequested)
 	case *newSessionTicketMsgTLS13:
-		return fmt.Sprintf("lifetime=%d;ageAdd=%d;nonce=%s;label=%s;maxEarlyData=%d", m.lifetime, m.ageAdd, zvHex(m.nonce), zvHex(m.label), m.maxEarlyData)
+		return fmt.Sprintf("lifetime=%d;ageAdd=%d;nonce=%s;label=%s;maxEarlyData=%d", m.lifetime, m.ageAdd, zv30Hex(m.nonce), zv30Hex(m.label), m.maxEarlyData)
 	case *certificateRequestMsgTLS13:
 		return fmt.Sprintf("ocspStapling=%s;scts=%s;supportedSignatureAlgorithms=%s;supportedSignatureAlgorithmsCert=%s;certificateAuthorities=%s",
-			zvBool(m.ocspStapling), zvBool(m.scts), zvSigList(m.supportedSignatureAlgorithms), zvSigList(m.supportedSignatureAlgorithmsCert), zvByteList(m.certificateAuthorities))
+			zv30Bool(m.ocspStapling), zv30Bool(m.scts), zvSigList(m.supportedSignatureAlgorithms), zvSigList(m.supportedSignatureAlgorithmsCert), zvByteList(m.certificateAuthorities))
 	case *certificateMsgTLS13:
-		return fmt.Sprintf("%s;ocspStapling=%s;scts=%s", zvDumpCert(m.certificate), zvBool(m.ocspStapling), zvBool(m.scts))
+		return fmt.Sprintf("%s;ocspStapling=%s;scts=%s", zvDumpCert(m.certificate), zv30Bool(m.ocspStapling), zv30Bool(m.scts))
 	case *serverHelloMsg:
 		ks := "-"
 		if m.serverShare.group != 0 || len(m.serverShare.data) != 0 {
-			ks = fmt.Sprintf("%d:%s", uint16(m.serverShare.group), zvHex(m.serverShare.data))
+			ks = fmt.Sprintf("%d:%s", uint16(m.serverShare.group), zv30Hex(m.serverShare.data))
 		}
 		return fmt.Sprintf("vers=%d;random=%s;sessionId=%s;cipherSuite=%d;compressionMethod=%d;ocspStapling=%s;ticketSupported=%s;"+
 			"secureRenegotiationSupported=%s;secureRenegotiation=%s;extendedMasterSecret=%s;alpnProtocol=%s;scts=%s;supportedVersion=%d;"+
 			"serverShare=%s;selectedIdentityPresent=%s;selectedIdentity=%d;supportedPoints=%s;cookie=%s;selectedGroup=%d;unknownExtensions=%s",
-			m.vers, zvHex(m.random), zvHex(m.sessionId), m.cipherSuite, m.compressionMethod, zvBool(m.ocspStapling), zvBool(m.ticketSupported),
-			zvBool(m.secureRenegotiationSupported), zvHex(m.secureRenegotiation), zvBool(m.extendedMasterSecret), zvHex([]byte(m.alpnProtocol)),
-			zvByteList(m.scts), m.supportedVersion, ks, zvBool(m.selectedIdentityPresent), m.selectedIdentity, zvHex(m.supportedPoints),
-			zvHex(m.cookie), uint16(m.selectedGroup), zvByteList(m.unknownExtensions))
+			m.vers, zv30Hex(m.random), zv30Hex(m.sessionId), m.cipherSuite, m.compressionMethod, zv30Bool(m.ocspStapling), zv30Bool(m.ticketSupported),
+			zv30Bool(m.secureRenegotiationSupported), zv30Hex(m.secureRenegotiation), zv30Bool(m.extendedMasterSecret), zv30Hex([]byte(m.alpnProtocol)),
+			zvByteList(m.scts), m.supportedVersion, ks, zv30Bool(m.selectedIdentityPresent), m.selectedIdentity, zv30Hex(m.supportedPoints),
+			zv30Hex(m.cookie), uint16(m.selectedGroup), zvByteList(m.unknownExtensions))
 	case *clientHelloMsg:
 		curves := make([]uint16, len(m.supportedCurves))
 		for i, c := range m.supportedCurves {
@@ -327,11 +327,11 @@ func zvDump(v zvMsg) string {
 		}
 		ks := make([]string, len(m.keyShares))
 		for i, k := range m.keyShares {
-			ks[i] = fmt.Sprintf("%d:%s", uint16(k.group), zvHex(k.data))
+			ks[i] = fmt.Sprintf("%d:%s", uint16(k.group), zv30Hex(k.data))
 		}
 		ids := make([]string, len(m.pskIdentities))
 		for i, p := range m.pskIdentities {
-			ids[i] = fmt.Sprintf("%s:%d", zvHex(p.label), p.obfuscatedTicketAge)
+			ids[i] = fmt.Sprintf("%s:%d", zv30Hex(p.label), p.obfuscatedTicketAge)
 		}
 		join := func(l []string) string {
 			if len(l) == 0 {
@@ -344,12 +344,12 @@ func zvDump(v zvMsg) string {
 			"supportedSignatureAlgorithmsCert=%s;secureRenegotiationSupported=%s;secureRenegotiation=%s;extendedRandomEnabled=%s;"+
 			"extendedRandom=%s;extendedMasterSecret=%s;alpnProtocols=%s;scts=%s;supportedVersions=%s;cookie=%s;keyShares=%s;"+
 			"earlyData=%s;pskModes=%s;pskIdentities=%s;pskBinders=%s",
-			m.vers, zvHex(m.random), zvHex(m.sessionId), zvU16List(m.cipherSuites), zvHex(m.compressionMethods), zvHex([]byte(m.serverName)),
-			zvBool(m.ocspStapling), zvU16List(curves), zvHex(m.supportedPoints), zvBool(m.ticketSupported), zvHex(m.sessionTicket),
-			zvSigList(m.supportedSignatureAlgorithms), zvSigList(m.supportedSignatureAlgorithmsCert), zvBool(m.secureRenegotiationSupported),
-			zvHex(m.secureRenegotiation), zvBool(m.extendedRandomEnabled), zvHex(m.extendedRandom), zvBool(m.extendedMasterSecret),
-			zvStrList(m.alpnProtocols), zvBool(m.scts), zvU16List(m.supportedVersions), zvHex(m.cookie), join(ks), zvBool(m.earlyData),
-			zvHex(m.pskModes), join(ids), zvByteList(m.pskBinders))
+			m.vers, zv30Hex(m.random), zv30Hex(m.sessionId), zvU16List(m.cipherSuites), zv30Hex(m.compressionMethods), zv30Hex([]byte(m.serverName)),
+			zv30Bool(m.ocspStapling), zvU16List(curves), zv30Hex(m.supportedPoints), zv30Bool(m.ticketSupported), zv30Hex(m.sessionTicket),
+			zvSigList(m.supportedSignatureAlgorithms), zvSigList(m.supportedSignatureAlgorithmsCert), zv30Bool(m.secureRenegotiationSupported),
+			zv30Hex(m.secureRenegotiation), zv30Bool(m.extendedRandomEnabled), zv30Hex(m.extendedRandom), zv30Bool(m.extendedMasterSecret),
+			zvStrList(m.alpnProtocols), zv30Bool(m.scts), zvU16List(m.supportedVersions), zv30Hex(m.cookie), join(ks), zv30Bool(m.earlyData),
+			zv30Hex(m.pskModes), join(ids), zvByteList(m.pskBinders))
 	}
 	panic("zv: unknown message type")
 }
